@@ -619,7 +619,10 @@ class SymArray(np.ndarray):
                 elif not is_sym(e):
                     e = bool(e)
             of[i] = e
-        return out.view(SymArray)
+        out = out.view(SymArray)
+        if self._mask is not None:
+            out._mask = self._mask.copy()
+        return out
 
     def sum(self, axis=None, **k): return f_sum(self, axis=axis, **k)
     def mean(self, axis=None, **k): return f_mean(self, axis=axis, **k)
